@@ -125,6 +125,13 @@ CHECKS.update({
         technique="TLA+ decision-table model (TLC) + request classes on real server processes with kill -9 / restart + TLC trace validation", ref="5/C12"),
 })
 
+CHECKS.update({
+    "C13": dict(
+        text="HnswConc.tla cuts Insert / Remove / Search at the points between which another goroutine can observe an intermediate state (the verif yield points) and TLC checks LenOK, QuiescentEpLive and NoNilDeref for thread programs: one writer with readers (the server's usage) and two writers (the benchmark's); the shipped hand-over (switch SafeHandOver = FALSE) gives two counterexamples with two writers, the repaired one none - TLC also found the hole in the first version of the repair. On the real index the TLC counterexamples and the single writer parked at each yield point are forced through the yield gates, and free-running stress runs (1 writer + readers, many writers) are recorded with call-interval stamps; HnswConcTrace checks: no panic, entry point live and counter exact at quiescence, all C01 probe checks at quiescence, successful inserts / removes per id balance and agree with final presence, and no concurrent search returns a ghost (an item definitely removed before the search began) or a wrong score.",
+        note="'No data races' is a statement about the Go memory model and is not decided (the stress binary is also run under -race and the count recorded). Per-id linearizability is checked through a necessary condition only. Link sets are abstracted in the model; the real link structure is checked at quiescence through the C01 probes.",
+        technique="TLA+ model checking (TLC) of the operations cut at their yield points + gate-forced counterexample schedules and stress traces of the real index + TLC trace validation", ref="5/C13"),
+})
+
 NOT_APPLICABLE = {
     "C15": "Numeric agreement and memory safety of hand-written AVX/SSE kernels: no state machine to specify, TLC has neither IEEE-754 floats nor a memory model; a differential/sanitizer technique would be needed (DESIGN.md section 6).",
 }
